@@ -1056,7 +1056,9 @@ class Terms(object):
         return ("elem", t)
 
     def _comp(self, t, i, n):
-        if t[0] == "new" and t[2][0] == "list":
+        if t[0] == "new" and t[2][0] == "list" and len(t[2]) > 1:
+            # (a non-empty list display; an empty one is a list that is
+            # filled later: its elements are not the display's)
             t = t[2]
         if t[0] in ("tuple", "list") and (len(t) - 1 == n or (
                 n == -1 and i < len(t) - 1)):
@@ -1376,6 +1378,9 @@ class Terms(object):
                 len(args) == 1 and not kws and args[0][0] == "genexp":
             return ("listcomp" if ft[1] == "list" else "setcomp",) + \
                 tuple(args[0][1:])
+        if ft == ("global", "range") and len(args) == 2 and not kws and \
+                args[0] == ("const", 0):
+            args = args[1:]             # range(0, n) is range(n)
         if ft in (("global", "dict"), ("global", "list")) and not args \
                 and not kws:
             # dict() is {} and list() is []
